@@ -6,7 +6,8 @@
    delivered block that has a patch in the pool; [pool_verified] is the invariant that makes this sound: every
    pooled block passed verification on the chain or on an earlier state of it that the chain still extends. The
    last argument [true] of insert_chain is accountPool.DeleteMomentum dropping the whole pool on a rollback. *)
-From ZV Require Import Prelude GoSem Sync SyncProofs.
+From ZV Require Import Prelude GoSem Sync SyncProofs SyncSource.
+Require ZV.gen.Pure ZV.gen.PureSync.
 Open Scope Z_scope.
 
 (* Whatever is delivered, the resulting chain is a prefix of the old chain extended ONLY by momentums that, at the
@@ -172,3 +173,40 @@ Example C16_pool_dropped_example :
   insert_chain ex_ack5 all_m true true ex_local [b77] ex_side77 =
   (ICErr 1 EInvalid, ([mkS 1 0 1; mkS 2 1 2; mkS 13 2 3], [])).
 Proof. exact pool_dropped_example. Qed.
+
+(* ---- the side-chain decision of the model IS the code: the statement `if head.Previous() != ourFrontier.Identifier()`
+   of chainBridge.InsertChain translated from /repo's source by go2coq on every run (a fragment: gen/PureSync.v), with
+   the frontier, the unknown part's head and tail, the momentum at head.Height-1 and RollbackTo's result as inputs;
+   (-1, nil) = the statement falls through to the insertion loop *)
+Theorem C16_side_chain_decision_is_the_source :
+  forall (enc : Z -> Z -> Z), (forall a b a' b', enc a b = enc a' b' -> a = a' /\ b = b') ->
+  forall c fr head tail,
+  let target := by_height c (u64 (s_height head - 1)) in
+  ZV.gen.PureSync.InsertChain_sidechain (prev_id enc head) (ident enc fr) 0
+    (match target with Some _ => true | None => false end)
+    (match target with Some t => ident enc t | None => 0 end)
+    (s_height fr) (match target with Some t => s_height t | None => 0 end) (s_height tail) 0
+  = match side_decision c fr head tail with
+    | None => (-1, 0)
+    | Some ELink => (0, ZV.gen.Pure.Err_new_can_t_link_momentums_to_insert__First_momentum_P)
+    | Some ETooFar => (0, ZV.gen.Pure.Err_new_can_t_rollback_to__v__Too_far__Frontier_is__v__W)
+    | Some _ => (0, ZV.gen.Pure.Err_new_won_t_insert_side_chain_which_is_not_longer)
+    end.
+Proof. exact side_chain_is_source. Qed.
+Theorem C16_insert_chain_uses_side_decision : forall bvalid mvalid clears c pool ds start head rest fr,
+  ds <> [] ->
+  skip_known c ds 0 = (start, head :: rest) ->
+  frontier c = Some fr ->
+  let tail := last (head :: rest) head in
+  insert_chain bvalid mvalid true clears c pool ds =
+  match side_decision c fr (d_mom head) (d_mom tail) with
+  | Some e => (ICErr 0 e, (c, pool))
+  | None =>
+    if prev_is (d_mom head) fr then apply_all bvalid mvalid c pool (head :: rest) start
+    else match by_height c (u64 (s_height (d_mom head) - 1)) with
+         | Some target => apply_all bvalid mvalid (rollback_to c (s_height target)) (if clears then [] else pool) (head :: rest) start
+         | None => (ICErr 0 ELink, (c, pool))
+         end
+  end.
+Proof. exact insert_chain_uses_side_decision. Qed.
+
